@@ -58,6 +58,38 @@ func Register(prefix string, m Monitor) func() {
 	}
 }
 
+// Fault decides whether a call fails instead of being made (nil: the call is made).
+type Fault func(Event) error
+
+var faults = map[string]Fault{}
+
+// RegisterFault installs a fault function for every call that touches a path under prefix.
+func RegisterFault(prefix string, f Fault) func() {
+	p, _ := filepath.Abs(prefix)
+	mu.Lock()
+	faults[p] = f
+	mu.Unlock()
+	return func() {
+		mu.Lock()
+		delete(faults, p)
+		mu.Unlock()
+	}
+}
+
+func findFault(p string) Fault {
+	mu.RLock()
+	defer mu.RUnlock()
+	if len(faults) == 0 {
+		return nil
+	}
+	for pre, f := range faults {
+		if p == pre || strings.HasPrefix(p, pre+string(filepath.Separator)) {
+			return f
+		}
+	}
+	return nil
+}
+
 // UnattributedPaths returns (a sample of) paths that were under no registered prefix.
 func UnattributedPaths() []string {
 	unattrMu.Lock()
@@ -107,6 +139,16 @@ func call(op, raw, raw2 string, mutating bool, n int, fn func() error) error {
 	}
 	if m != nil {
 		m(Event{Seq: s, Op: op, Path: p, Raw: raw, Path2: p2, Mutating: mutating, Phase: "before", N: n})
+	}
+	if ff := findFault(p); ff != nil {
+		if e := ff(Event{Seq: s, Op: op, Path: p, Raw: raw, Path2: p2, Mutating: mutating, Phase: "before", N: n}); e != nil {
+			// the call fails without having been made
+			err := error(&fs.PathError{Op: op, Path: raw, Err: e})
+			if m != nil {
+				m(Event{Seq: s, Op: op, Path: p, Raw: raw, Path2: p2, Mutating: mutating, Phase: "after", N: n, Err: err})
+			}
+			return err
+		}
 	}
 	err := fn()
 	if m != nil {
